@@ -68,12 +68,13 @@ def run(tier, seed):
             flags += ["--records-per-batch", "1"]
         elif k % 5 == 1:
             flags += ["--records-per-batch", "2"]
-        runs.append({"argv": [mlr] + flags + argv_of(c, seed), "stdin": b3.dkvp(s), "timeout_ms": 10000})
+        runs.append({"argv": [mlr, "--ifs", ";", "--ofs", ";"] + flags + argv_of(c, seed), "stdin": b3.dkvp(s, ";"),
+                     "timeout_ms": 10000})      # ";" so that values may contain commas (VerbsSelectCases.RUsep)
     res = vlib.run_cases(runs)
     vlib.confirm_timeouts(runs, res)
     obs = []
     for x, r in zip(cases, res):
-        obs.append({"c": x["c"], "s": x["s"], "out": b3.parse_dkvp(r["stdout"]),
+        obs.append({"c": x["c"], "s": x["s"], "out": b3.parse_dkvp(r["stdout"], ";"),
                     "exit": -2 if r["timed_out"] else r["exit"]})
     bad, n = b3.validate("VerbsSelectObs", obs)
     states += n
